@@ -120,6 +120,7 @@ typedef struct {
 // never from `prefill` (pattern written to OUT and SCRATCH buffers before the call) or `mis` (byte
 // misalignment selector of every buffer) — so results must not depend on the latter two. Thread-safe.
 extern uint64_t ops_readonly_input_calls;
+extern int op_exec_no_relate;
 extern __thread int op_exec_repeat;  // > 0: op_exec repeats its call that many times on the same buffers; res->rerun_differs when a repetition differs
 void op_exec(const opdef_t* o, const env_t* env, uint64_t seed, int prefill, unsigned mis, unsigned monitors, opres_t* res);
 // runs the named catalogue entries from T threads at once on private data (shared environment) and compares every
